@@ -295,6 +295,12 @@ func driver(seed uint64, n int, outV, outJSON string, _ []string) {
 	var cases []string
 	for c := 0; c < n; c++ {
 		blocks := []int64{5, 6, 8, 10, 16}[r.Intn(5)]
+		// C05: a directed history (fill the cache, hit an OLD entry through one lookup kind, upload
+		// until something is evicted) in a good part of the cases; the rest stay fully random
+		directed := r.Chance(45)
+		if directed && blocks > 10 {
+			blocks = 8
+		}
 		max := blocks * 4096
 		var hard int64
 		switch r.Intn(4) {
@@ -312,6 +318,9 @@ func driver(seed uint64, n int, outV, outJSON string, _ []string) {
 		maxProxy := int64(1 << 40)
 		if r.Chance(30) {
 			maxProxy = []int64{100, 4096, 8192}[r.Intn(3)]
+		}
+		if directed {
+			hard, maxBlob = 0, int64(1<<40)
 		}
 		dir, _ := os.MkdirTemp("", "verif-disk-")
 		mode := "uncompressed"
@@ -332,6 +341,9 @@ func driver(seed uint64, n int, outV, outJSON string, _ []string) {
 		realDir := disk.VerifDir(dc)
 
 		sizes := []int64{1, 100, 4095, 4096, 4097, 8192, 12000, max - 8192, max - 4096, max, max + 1}
+		if directed {
+			sizes = []int64{1, 100, 2000, 4095, 4096, 4096, 4097, 8192}
+		}
 		var blobs []blob
 		for i := 0; i < 8; i++ {
 			sz := r.Pick(sizes)
@@ -376,8 +388,146 @@ func driver(seed uint64, n int, outV, outJSON string, _ []string) {
 		seenRandom := map[string]bool{}
 		nontrivial := false
 		nops := 5 + r.Intn(16)
+		if directed {
+			nops = int(blocks) + 12 + r.Intn(6)
+		}
 		ctx := context.Background()
 		failed := func(what string) { rep.Fail(c, what, strings.Join(text, " ; ")) }
+
+		// ---- C05: independent last-use tracker.  lo[k] = time of the last definite use of k (an
+		// accepted write or a lookup that HIT); hi[k] = time of the last lookup that found k in the
+		// index at all (a lookup that asks for another size is a miss, whether it refreshes the
+		// entry is not specified, so it only widens the interval).  Keys are dropped when evicted.
+		var tick int64
+		lo, hi := map[string]int64{}, map[string]int64{}
+		use := func(k string) { tick++; lo[k], hi[k] = tick, tick }
+		maybe := func(k string) {
+			if _, ok := lo[k]; ok {
+				tick++
+				hi[k] = tick
+			}
+		}
+		// lookupUse records a lookup of key with the requested size against the index as it was
+		// before the operation: a hit is a use
+		lookupUse := func(before disk.VerifSnapshot, key string, size int64, hit bool) {
+			it, was := lookup(before, key)
+			if !was {
+				return
+			}
+			if hit && (size < 0 || it.Size == size) {
+				use(key)
+			} else {
+				maybe(key)
+			}
+		}
+		// ---- C05: directed part of the history
+		type forcedOp struct {
+			op     string // "put" "get" "contains" "fm"
+			ki, bi int
+			size   int64 // requested size for lookups (-1 = unknown)
+			zs     bool
+			what   string
+		}
+		phase, fillLeft, evictPuts, rounds := 0, int(blocks), 0, 0
+		if !directed {
+			phase = 9
+		}
+		lookupKind := r.Intn(6)
+		evictionsSeen := 0
+		freshKey := func(before disk.VerifSnapshot) (int, int, bool) {
+			for try := 0; try < 60; try++ {
+				ki, bi := r.Intn(3), r.Intn(len(blobs))
+				if r.Chance(50) {
+					ki = 0
+				}
+				kind, _ := kindOf(ki)
+				if _, ok := lookup(before, kind.String()+"/"+blobs[bi].hash); !ok && int64(len(blobs[bi].data)) <= 8192 {
+					return ki, bi, true
+				}
+			}
+			return 0, 0, false
+		}
+		nextForced := func(before disk.VerifSnapshot) *forcedOp {
+			switch phase {
+			case 0: // fill
+				if fillLeft > 0 && before.Cur+4096 <= max {
+					fillLeft--
+					if ki, bi, ok := freshKey(before); ok {
+						return &forcedOp{op: "put", ki: ki, bi: bi, what: "fill"}
+					}
+				}
+				phase = 1
+				fallthrough
+			case 1: // hit one of the two oldest entries through the lookup kind whose turn it is
+				var olds []disk.VerifEntry
+				for _, e := range before.Order {
+					if _, ok := lo[e.Key]; ok {
+						olds = append(olds, e)
+					}
+				}
+				sort.SliceStable(olds, func(i, j int) bool { return lo[olds[i].Key] < lo[olds[j].Key] })
+				if len(olds) < 3 {
+					phase = 9
+					return nil
+				}
+				lk := lookupKind % 6
+				lookupKind++
+				pickOld := olds[0]
+				if lk == 1 || lk == 4 { // CAS only
+					if !strings.HasPrefix(pickOld.Key, "cas/") && strings.HasPrefix(olds[1].Key, "cas/") {
+						pickOld = olds[1]
+					}
+					if !strings.HasPrefix(pickOld.Key, "cas/") {
+						lk = 3
+					}
+				} else if r.Chance(25) {
+					pickOld = olds[1]
+				}
+				sl := strings.IndexByte(pickOld.Key, '/')
+				ki := map[string]int{"cas": 0, "ac": 1, "raw": 2}[pickOld.Key[:sl]]
+				bi, known := byHash[pickOld.Key[sl+1:]]
+				if !known {
+					phase = 9
+					return nil
+				}
+				phase, evictPuts, evictionsSeen = 2, 0, 0
+				f := &forcedOp{ki: ki, bi: bi, size: pickOld.Item.Size}
+				switch lk {
+				case 0:
+					f.op, f.what = "get", "old-get"
+					if ki != 0 && r.Chance(50) {
+						f.size = -1
+					}
+				case 1:
+					f.op, f.zs, f.what = "get", true, "old-getzstd"
+				case 2:
+					f.op, f.what = "contains", "old-contains-size"
+				case 3:
+					f.op, f.size, f.what = "contains", -1, "old-contains-unknown"
+				case 4:
+					f.op, f.what = "fm", "old-findmissing"
+				case 5:
+					f.op, f.size, f.what = "get", -1, "old-get-unknown"
+				}
+				return f
+			case 2: // upload new keys until one or two entries have been evicted
+				if evictionsSeen >= 1+rounds%2 || evictPuts >= 4 {
+					rounds++
+					if rounds >= 3 {
+						phase = 9
+						return nil
+					}
+					phase = 1
+					return nil // one random operation in between
+				}
+				evictPuts++
+				if ki, bi, ok := freshKey(before); ok {
+					return &forcedOp{op: "put", ki: ki, bi: bi, what: "press"}
+				}
+				phase = 9
+			}
+			return nil
+		}
 
 		// blob index for a lookup: mostly one that is currently indexed in that key space
 		pickPresent := func(before disk.VerifSnapshot, prefix string) int {
@@ -400,23 +550,37 @@ func driver(seed uint64, n int, outV, outJSON string, _ []string) {
 			before := disk.VerifCacheSnapshot(dc)
 			var op, out, t string
 			p := r.Intn(100)
+			var fo *forcedOp
+			if i < nops {
+				fo = nextForced(before)
+			}
+			if fo != nil {
+				p = map[string]int{"put": 0, "get": 50, "contains": 80, "fm": 90}[fo.op]
+				rep.Count("c05.directed." + fo.what)
+			}
 			if i == nops {
 				p = 99 // final drain
 			}
+			// C05: the key an upload or backend fetch writes, the size it reserves, whether it was stored
+			wkey, need, wrote := "", int64(0), false
 			switch {
 			case p < 45: // ---------------- Put
 				ki := r.Intn(3)
 				if r.Chance(50) {
 					ki = 0
 				}
-				kind, kname := kindOf(ki)
 				bi := r.Intn(len(blobs))
+				f := r.Intn(20)
+				if fo != nil {
+					ki, bi, f = fo.ki, fo.bi, 99
+				}
+				kind, kname := kindOf(ki)
 				b := blobs[bi]
 				hash, size := b.hash, int64(len(b.data))
 				data := b.data
 				stErr := false
 				fault := "ok"
-				switch f := r.Intn(20); {
+				switch {
 				case f == 0:
 					size++
 					fault = "size+1"
@@ -471,6 +635,7 @@ func driver(seed uint64, n int, outV, outJSON string, _ []string) {
 				_, presentBefore := lookup(before, key)
 				err := dc.Put(ctx, kind, hash, size, &faultReader{data: data, err: stErr})
 				after := disk.VerifCacheSnapshot(dc)
+				wkey, need, wrote = key, size, err == nil
 				var ondisk int64
 				if kind == cache.CAS && zstdMode && fault == "ok" {
 					ondisk = b.ondisk // needed by the model even when the commit is refused
@@ -516,6 +681,10 @@ func driver(seed uint64, n int, outV, outJSON string, _ []string) {
 				}
 				kind, kname := kindOf(ki)
 				bi := pickPresent(before, kind.String()+"/")
+				if fo != nil {
+					kind, kname = kindOf(fo.ki)
+					bi = fo.bi
+				}
 				b := blobs[bi]
 				hash := b.hash
 				size := int64(len(b.data))
@@ -551,11 +720,14 @@ func driver(seed uint64, n int, outV, outJSON string, _ []string) {
 				if r.Chance(4) {
 					hash, size, off = empty.hash, []int64{0, -1}[r.Intn(2)], 0
 				}
+				if fo != nil {
+					hash, size, off, zs = b.hash, fo.size, 0, fo.zs
+				}
 				key := kind.String() + "/" + hash
 				// backend script
 				g := &bget{kind: "miss"}
 				bdesc := "BMiss"
-				if withProxy {
+				if withProxy && fo == nil {
 					switch f := r.Intn(13); {
 					case f == 0:
 						g.kind, bdesc = "err", "BErr"
@@ -634,6 +806,13 @@ func driver(seed uint64, n int, outV, outJSON string, _ []string) {
 				fetched := fp.gets > getsBefore
 				fp.mu.Unlock()
 				rnd := ""
+				// C05: a local hit is a use; a fetch writes the key (recorded after the eviction check)
+				if fetched {
+					maybe(key)
+				} else {
+					lookupUse(before, key, size, err == nil && rc != nil)
+				}
+				wkey, need, wrote = key, size, fetched && err == nil && rc != nil
 				switch {
 				case err != nil:
 					out = "Some (GetErr " + errClass(err) + ")"
@@ -716,6 +895,10 @@ func driver(seed uint64, n int, outV, outJSON string, _ []string) {
 			case p < 83: // ---------------- Contains
 				kind, kname := kindOf(r.Intn(3))
 				bi := pickPresent(before, kind.String()+"/")
+				if fo != nil {
+					kind, kname = kindOf(fo.ki)
+					bi = fo.bi
+				}
 				hash, size := blobs[bi].hash, int64(len(blobs[bi].data))
 				switch r.Intn(5) {
 				case 0:
@@ -725,6 +908,9 @@ func driver(seed uint64, n int, outV, outJSON string, _ []string) {
 				}
 				if r.Chance(5) {
 					hash, size = empty.hash, 0
+				}
+				if fo != nil {
+					hash, size = blobs[bi].hash, fo.size
 				}
 				bdesc := "BHasNo"
 				fp.mu.Lock()
@@ -736,12 +922,19 @@ func driver(seed uint64, n int, outV, outJSON string, _ []string) {
 				}
 				fp.mu.Unlock()
 				ok, fsz := dc.Contains(ctx, kind, hash, size)
+				lookupUse(before, kind.String()+"/"+hash, size, ok)
+				if size < 0 {
+					rep.Count("contains.unknown-size")
+				}
 				out = fmt.Sprintf("Some (Has %s %s)", CB(ok), CZ(fsz))
 				op = fmt.Sprintf("SReq (RContains %s %s %s (%s))", kname, CS(hash), CZ(size), bdesc)
 				t = fmt.Sprintf("Contains(%s,blob%d,size=%d,backend=%s)=%v,%d", kname, bi, size, bdesc, ok, fsz)
 				rep.Count(fmt.Sprintf("contains.%v", ok))
 			case p < 93: // ---------------- FindMissing
 				nd := []int{0, 1, 3, 19, 20, 21, 41, 45}[r.Intn(8)]
+				if fo != nil {
+					nd = 1 + r.Intn(3)
+				}
 				var ds []*pb.Digest
 				var dsT, bsT []string
 				fp.mu.Lock()
@@ -766,6 +959,9 @@ func driver(seed uint64, n int, outV, outJSON string, _ []string) {
 					if r.Chance(6) {
 						hash, size = empty.hash, 0
 					}
+					if fo != nil && j == 0 {
+						hash, size = blobs[fo.bi].hash, fo.size
+					}
 					ds = append(ds, &pb.Digest{Hash: hash, SizeBytes: size})
 					dsT = append(dsT, fmt.Sprintf("(%s, %s)", CS(hash), CZ(size)))
 					if _, yes := hasCopy[hash]; yes {
@@ -783,8 +979,19 @@ func driver(seed uint64, n int, outV, outJSON string, _ []string) {
 						wantMissing = append(wantMissing, fmt.Sprintf("%s/%d", hash, size))
 					}
 				}
+				asked := make([]*pb.Digest, len(ds)) // the call rearranges its argument
+				copy(asked, ds)
 				missing, err := dc.FindMissingCasBlobs(ctx, ds)
 				var got, gotT []string
+				stillMissing := map[string]bool{}
+				for _, m := range missing {
+					stillMissing[fmt.Sprintf("%s/%d", m.Hash, m.SizeBytes)] = true
+				}
+				for _, d := range asked { // C05: every digest found locally was used, in request order
+					if !(d.Hash == empty.hash && d.SizeBytes == 0) {
+						lookupUse(before, "cas/"+d.Hash, d.SizeBytes, !stillMissing[fmt.Sprintf("%s/%d", d.Hash, d.SizeBytes)])
+					}
+				}
 				for _, m := range missing {
 					got = append(got, fmt.Sprintf("%s/%d", m.Hash, m.SizeBytes))
 					gotT = append(gotT, fmt.Sprintf("(%s, %s)", CS(m.Hash), CZ(m.SizeBytes)))
@@ -819,6 +1026,82 @@ func driver(seed uint64, n int, outV, outJSON string, _ []string) {
 			if len(after.Queue) > len(before.Queue) {
 				nontrivial = true
 				rep.Count("evictions-or-overwrites")
+			}
+			// ---- C05 direct oracle: what left the index during this operation
+			{
+				present := map[string]disk.VerifItem{}
+				for _, e := range after.Order {
+					present[e.Key] = e.Item
+				}
+				var victims []disk.VerifEntry
+				for _, e := range before.Order {
+					if _, ok := present[e.Key]; !ok {
+						victims = append(victims, e)
+					}
+				}
+				if len(victims) > 0 {
+					evictionsSeen += len(victims)
+					rep.Count("c05.evicting-operations")
+					if directed && phase == 2 {
+						rep.Count("c05.directed.evicted-after-old-hit")
+					}
+					// (a) no victim was used more recently than a survivor (the written key aside)
+				recency:
+					for _, v := range victims {
+						lv, okv := lo[v.Key]
+						if !okv {
+							rep.Count("c05.untracked-key")
+							continue
+						}
+						for _, sv := range after.Order {
+							hs, oks := hi[sv.Key]
+							if sv.Key == wkey || !oks {
+								continue
+							}
+							if lv > hs {
+								failed(fmt.Sprintf("C05: %s was evicted although its last use (a write or a lookup that hit, at step %d of the uses) is more recent than the last time %s was even looked up (%d), and %s survives", v.Key, lv, sv.Key, hs, sv.Key))
+								break recency
+							}
+						}
+					}
+					// (b) only under pressure, and no more than needed
+					var newOnDisk, freed, largest int64
+					if it, ok := present[wkey]; ok && wrote {
+						newOnDisk = r4k(it.SizeOnDisk)
+					}
+					needB := need
+					if newOnDisk > needB {
+						needB = newOnDisk
+					}
+					for _, v := range victims {
+						sz := r4k(v.Item.SizeOnDisk)
+						freed += sz
+						if sz > largest {
+							largest = sz
+						}
+					}
+					switch {
+					case wkey == "":
+						failed(fmt.Sprintf("C05: %d entries left the index during an operation that stores nothing", len(victims)))
+					case need > max:
+						failed(fmt.Sprintf("C05: an item of %d bytes (max_size %d) evicted %d entries", need, max, len(victims)))
+					case before.Cur+needB <= max:
+						failed(fmt.Sprintf("C05: %d entries evicted although the incoming item (%d bytes, %d on disk) fitted next to the %d bytes accounted (max_size %d)", len(victims), need, newOnDisk, before.Cur, max))
+					case before.Cur-(freed-largest)+needB <= max:
+						failed(fmt.Sprintf("C05: %d entries (%d bytes) evicted, more than needed to fit the incoming item (%d bytes, %d on disk) into max_size %d with %d accounted", len(victims), freed, need, newOnDisk, max, before.Cur))
+					}
+					for _, v := range victims {
+						delete(lo, v.Key)
+						delete(hi, v.Key)
+					}
+				}
+				if wrote {
+					if _, ok := present[wkey]; ok {
+						use(wkey)
+					} else if need > 0 {
+						failed("C05: accepted upload or fetch of " + wkey + " is not present immediately afterwards")
+					}
+				}
 			}
 			if msg := lruOracle(after, max); msg != "" {
 				failed("C03: " + msg)
